@@ -13,14 +13,14 @@
    with the observed operations (`sync`); the first disagreement is reported as DRIFT and the A-layer stops following. *)
 EXTENDS Spinner, TraceKit
 
-VARIABLES tid, l, oterm, sync
-tvars == <<vars, tid, l, oterm, sync>>
+VARIABLES tid, l, oterm, oclock, sync
+tvars == <<vars, tid, l, oterm, oclock, sync>>
 T == Traces[tid]
 E == T[l]
 
 TInit == /\ tid \in 1..NTraces /\ l = 1
          /\ InitWith(Traces[tid][1].cfg)
-         /\ oterm = TermNew(Traces[tid][1].cfg.w)
+         /\ oterm = TermNew(Traces[tid][1].cfg.w) /\ oclock = 0
          /\ sync = TRUE
 
 Adv == l' = l + 1 /\ tid' = tid
@@ -31,16 +31,17 @@ FirstRaise == LET S == {k \in 1..Len(cfg.body) : cfg.body[k].k \in {"raise", "in
               cfg.body[CHOOSE k \in S : \A j \in S : k <= j].k
 
 TNew == /\ l = 1 /\ Is("new") /\ Adv
-        /\ UNCHANGED <<vars, oterm, sync>>
+        /\ UNCHANGED <<vars, oterm, oclock, sync>>
         /\ Check(tid, l, "H.cfg", "", /\ \A m \in Msgs : m # <<>> /\ \A k \in 1..Len(m) : m[k] \notin ValueSet \cup {" "}
                                       /\ \A m \in Msgs : Len(m) + 3 < cfg.w
                                       /\ cfg.mode \in {"ansi", "plain", "quiet"})
 
 ModelCan(th) == (th = "M" /\ EnM) \/ (th = "S" /\ EnS) \/ th = "T"
-StepOps == {"write", "sleep", "start", "join", "set", "isset", "acquire", "work", "tick", "wait", "clear"}
+StepOps == {"write", "sleep", "start", "join", "set", "setret", "isset", "acquire", "work", "tick", "wait", "clear"}
 
 \* the P-clauses of a step: on the observed writes only
 PStep == /\ oterm' = ApplyOps(oterm, E.ops)
+         /\ oclock' = oclock + (IF E.th = "T" THEN E.dt ELSE 0)
          /\ Check(tid, l, "H.ops.known", "", AllKnown(E.ops) /\ (E.ops # <<>> => E.op = "write"))
          /\ Check(tid, l, "P.nomix", E.th, NoMixT(oterm', Msgs, cfg.mode))
 
@@ -56,17 +57,34 @@ TAlone == /\ l > 1 /\ l <= Len(T) /\ E.op \in StepOps /\ Adv
           /\ Note(tid, l, "A.step", ~sync)
           /\ PStep
 
-TEnd == /\ l > 1 /\ l = Len(T) /\ Is("end") /\ Adv
-        /\ UNCHANGED <<vars, oterm, sync>>
+\* the same indicator object is used again: a second auto() on the terminal as the first run left it.  The A-layer starts
+\* afresh from the observed terminal and clock (and follows again even if it had lost track in the first run).
+TAgain == /\ l > 1 /\ Is("new") /\ T[l - 1].op = "end" /\ Adv
+          /\ LET c == E.cfg
+                 v == BeginVals(c, oterm, oclock) IN
+             /\ cfg' = c /\ pcM' = v.pcM /\ mph' = "s" /\ bi' = 0 /\ mframe' = v.mframe
+             /\ pcS' = "new" /\ sframe' = <<>> /\ sdead' = 0
+             /\ message' = c.start /\ current' = 0 /\ update' = v.update
+             /\ stop' = FALSE /\ lock' = "" /\ clock' = oclock
+             /\ term' = oterm /\ r0' = oterm.r /\ outcome' = ""
+             /\ last' = [th |-> "", op |-> "new", ops |-> <<>>, at |-> ""]
+          /\ sync' = TRUE /\ UNCHANGED <<oterm, oclock>>
+          /\ Check(tid, l, "H.cfg", "again", E.cfg.mode = cfg.mode /\ E.cfg.w = cfg.w)
+
+TEnd == /\ l > 1 /\ Is("end") /\ Adv
+        /\ UNCHANGED <<vars, oterm, oclock, sync>>
         /\ Check(tid, l, "P.terminates", "", E.outcome # "stuck")
         /\ Check(tid, l, "P.joined", E.outcome, ~E.salive)
         /\ Check(tid, l, "P.endframe", IF E.outcome = "normal" THEN "frame" ELSE E.exc,
-                 ~Raises => (E.outcome = "normal" /\ (Quiet \/ EndFrameT(oterm, cfg.end, cfg.mode))))
+                 ~Raises => (E.outcome = "normal" /\ (Quiet \/ EndFrameT(oterm, cfg.end, cfg.mode, r0))))
+        \* auto() is a context manager: what leaves the with-block is the body's own exception, never one of auto()'s making
+        /\ Check(tid, l, "P.foreign", E.exc, E.outcome = "raised" =>
+                   (Raises /\ E.exc = (IF FirstRaise = "raise" THEN "BodyError" ELSE "KeyboardInterrupt")))
         /\ Note(tid, l, "A.outcome", sync => (pcM = "done" /\ outcome = E.outcome))
         /\ Note(tid, l, "A.exc", E.sexc = "" /\ (E.outcome = "raised" => (Raises /\ E.exc = (IF FirstRaise = "raise" THEN "BodyError" ELSE "KeyboardInterrupt"))))
 
-TDone == /\ l = Len(T) + 1 /\ l' = l + 1 /\ tid' = tid /\ UNCHANGED <<vars, oterm, sync>> /\ Accept(tid)
+TDone == /\ l = Len(T) + 1 /\ l' = l + 1 /\ tid' = tid /\ UNCHANGED <<vars, oterm, oclock, sync>> /\ Accept(tid)
 
-TNext == TNew \/ TFollow \/ TAlone \/ TEnd \/ TDone
+TNext == TNew \/ TAgain \/ TFollow \/ TAlone \/ TEnd \/ TDone
 TSpec == TInit /\ [][TNext]_tvars
 =============================================================================
